@@ -29,6 +29,8 @@ inductive Instr where
   | heBody (c : Nat)         -- under the lock: `if closed {return}; remove c`
   | connectBody (c : Nat)    -- under the lock: `if closed { conn.Close(); return }; conns = append(conns, c)`
   | read                     -- Pick / Size
+  | connectBodyU (c : Nat)   -- the tail of connect() as REPAIRED by props/C06.fix-KF-C06-1.diff (not the code that exists):
+                             -- `if closed { Unlock(); conn.Close(); return }; conns = append(conns, c); Unlock()`
 deriving DecidableEq, Repr
 
 structure St where
@@ -46,6 +48,8 @@ def pClose : List Instr := [.lock, .poolCloseBody, .unlock, .closeTaken]
 def pHandleError (c : Nat) : List Instr := [.lock, .heBody c, .unlock]
 def pPick : List Instr := [.lock, .read, .unlock]
 def pConnectTail (c : Nat) : List Instr := [.lock, .connectBody c, .unlock]
+/-- the tail of connect() with props/C06.fix-KF-C06-1.diff applied -/
+def pConnectTailFixed (c : Nat) : List Instr := [.lock, .connectBodyU c]
 /-- hostConnPool.Close of seeded change C06-6 (NOT the code that exists): `defer Unlock`, connections closed in place -/
 def pCloseHoldingLock : List Instr := [.lock, .poolCloseBody, .closeTaken, .unlock]
 
@@ -79,6 +83,11 @@ def step (cerr : Nat → Bool) (st : St) (t : Nat) : Option St :=
       if st.closed then some { st with prog := upd st.prog t (.connClose c :: r) }
       else some { st with conns := c :: st.conns, prog := upd st.prog t r }
   | .read :: r => some { st with prog := upd st.prog t r }
+  | .connectBodyU c :: r =>
+      if st.holder = some t then
+        (if st.closed then some { st with holder := none, prog := upd st.prog t (.connClose c :: r) }
+         else some { st with holder := none, conns := c :: st.conns, prog := upd st.prog t r })
+      else none
 
 /-- a schedule: which thread moves next -/
 def run (cerr : Nat → Bool) : St → List Nat → Option St
@@ -112,6 +121,7 @@ def ok (cerr : Nat → Bool) : Bool → List Instr → Bool
   | false, .connClose _ :: r => ok cerr false r
   | false, .connError _ :: r => ok cerr false r
   | false, .closeTaken :: r => ok cerr false r
+  | true, .connectBodyU _ :: r => ok cerr false r
   | _, _ => false
 
 def init (conns : List Nat) (prog : Nat → List Instr) : St :=
